@@ -68,6 +68,7 @@ func checkC11(w *World, r *Report) {
 	r.Explanation += " Rules added in later rounds: (R11.5) include resolves through Engine.Load; (R11.6) every with-variable is bound; (R11.7) outward walks of the context chain that copy variables never overwrite; (R11.8) every by-name read of a context's own map reaches .parent (or a verified reader) on every miss path. (R11.9) no write to the variable map of a context reached through .parent; (R11.10) without `only` the include's context is linked to the includer's."
 	r.Explanation += " Round 9: (R11.11) tables of parsed expressions only grow in the parser."
 	r.Explanation += " Round 11: (R11.12) text in front of a keyword of the include tag is consumed."
+	r.Explanation += " Round 12: (R11.13) locals before globals; (R11.14) include output unchanged; (R11.15) scopes are asked innermost first."
 	r.RuleText = "obligation = one nested Render call / one access-granting construct / one nil return / one store to a scope-map field; non-trivial = those needing dataflow (all but R11.4's fresh stores)"
 	r.Trusted = []string{"Clone()/NewRenderContext() are the only RenderContext constructors (found by role: return renderContextPool.Get())"}
 
